@@ -302,6 +302,90 @@ fn c07_dual_matrix_part() {
     core::mem::forget(m);
 }
 
+// ---------------------------------------------------------------------------------------
+// connectors *built* from bigram text.  The builders (BufReader lines, string-keyed hashbrown
+// maps, the greedy template split over hash sets) do not fold under CBMC, so they run natively,
+// at check time, on one concrete 10-template model with ragged rows and BOS/EOS entries
+// (gen.rs BIGRAM_TEXT); the generator also computes the defining feature-pair sums with its own
+// reference.  The solver then decides, for every pair of connection ids at once, that `cost()`
+// of the connector assembled from the natively built parts equals the defining sum.
+// ---------------------------------------------------------------------------------------
+#[cfg(kani)]
+fn blocks_of(rows: &[[u32; 8]]) -> Vec<U31x8> {
+    let mut v = Vec::with_capacity(rows.len() + 1);
+    for r in rows.iter() {
+        let mut a = [U31::default(); 8];
+        for k in 0..8 {
+            a[k] = U31::new(r[k]).unwrap();
+        }
+        v.push(U31x8::verif_from_array(a));
+    }
+    v
+}
+
+#[cfg(kani)]
+fn vec_of<T: Copy>(xs: &[T]) -> Vec<T> {
+    let mut v = Vec::with_capacity(xs.len() + 1);
+    for x in xs.iter() {
+        v.push(*x);
+    }
+    v
+}
+
+#[cfg(kani)]
+fn want_of(r: usize, l: usize) -> i32 {
+    let mut w = 0;
+    for i in 0..4 {
+        for j in 0..4 {
+            if i == r && j == l {
+                w = gen::BIGRAM_WANT[i][j];
+            }
+        }
+    }
+    w
+}
+
+//@ c07_built_dual_model {"desc":"the dual connector the current DualConnector::from_readers builds from a 10-template bigram model (ragged rows, BOS/EOS entries, templates split between matrix part and raw part) returns the defining feature-pair sum for every pair of ids","bounds":"one concrete model: 3 right + 3 left ids (+ id 0), 10 templates, 20 cost lines (text in gen.rs BIGRAM_TEXT); the builder runs natively at check time and is not executed symbolically; expected sums come from the generator's independent reference","symbolic":"the right and the left connection id","functions":["DualConnector::from_readers (native, output checked)","DualConnector::cost","MatrixConnector::cost","Scorer::accumulate_cost","Scorer::retrieve_cost"],"unwind":130,"timeout":900}
+#[cfg(kani)]
+#[kani::proof]
+fn c07_built_dual_model() {
+    let m = MatrixConnector::new(vec_of(&gen::DUAL_M_DATA), gen::DUAL_M_NR, gen::DUAL_M_NL);
+    let sc = Scorer::verif_from_parts(vec_of(&gen::DUAL_BASES), vec_of(&gen::DUAL_CHECKS), vec_of(&gen::DUAL_COSTS));
+    let conn = DualConnector::verif_from_parts(m, vec_of(&gen::DUAL_RMAP), vec_of(&gen::DUAL_LMAP), blocks_of(&gen::DUAL_RROWS), blocks_of(&gen::DUAL_LROWS), sc);
+    let r = any_below(4);
+    let l = any_below(4);
+    let got = conn.cost(r as u16, l as u16);
+    assert!(got == want_of(r, l), "built dual connector: cost differs from the defining feature-pair sum");
+    kani::cover!(r == 2 && l == 0);
+    kani::cover!(r == 0 && l == 3);
+    core::mem::forget(conn);
+}
+
+//@ c07_built_raw_model {"desc":"the raw connector the current RawConnector::from_readers builds from the same model returns the defining feature-pair sum for every pair of ids","bounds":"as c07_built_dual_model","symbolic":"the right and the left connection id","functions":["RawConnector::from_readers (native, output checked)","RawConnector::cost","Scorer::accumulate_cost","Scorer::retrieve_cost"],"unwind":130,"timeout":900}
+#[cfg(kani)]
+#[kani::proof]
+fn c07_built_raw_model() {
+    let sc = Scorer::verif_from_parts(vec_of(&gen::RAW_BASES), vec_of(&gen::RAW_CHECKS), vec_of(&gen::RAW_COSTS));
+    let conn = RawConnector::new(blocks_of(&gen::RAW_RROWS), blocks_of(&gen::RAW_LROWS), gen::RAW_T, sc);
+    let r = any_below(4);
+    let l = any_below(4);
+    // the raw connector slices its rows at `id * blocks`: with a symbolic id the slice bounds and
+    // with them every loop over the blocks become symbolic (no verdict in 900 s), so the symbolic
+    // pair selects one of 16 calls with constant ids
+    let mut got = 0;
+    for i in 0..4 {
+        for j in 0..4 {
+            if i == r && j == l {
+                got = conn.cost(i as u16, j as u16);
+            }
+        }
+    }
+    assert!(got == want_of(r, l), "built raw connector: cost differs from the defining feature-pair sum");
+    kani::cover!(r == 2 && l == 0);
+    kani::cover!(r == 3 && l == 3);
+    core::mem::forget(conn);
+}
+
 //@ c07_twin {"expect":"fail","desc":"vacuity twin: claims retrieve_cost never finds anything","bounds":"as c07_scorer_retrieve","symbolic":"arrays, keys","functions":["Scorer::retrieve_cost"],"unwind":8,"timeout":600,"covers":"none"}
 #[cfg(kani)]
 #[kani::proof]
